@@ -57,6 +57,8 @@ def check_twin(spec, acc):
     if spec.get("style", "def") == "def":
         # ... and the async rendering whose conditions and captures are coroutine functions themselves
         variants.append(("async+coroutine conditions", fam.norm(dict(spec, is_async=True, style="adef"))))
+        # ... and the one in which coroutine-function and plain conditions alternate within every stack
+        variants.append(("async+mixed conditions", fam.norm(dict(spec, is_async=True, style="amix"))))
     key0 = json.dumps(spec, sort_keys=True)
     p1 = fam.Program(s_sync)
     progs = [(tag, sa, fam.Program(sa)) for tag, sa in variants]
